@@ -88,6 +88,9 @@ var _ merger.TypeURLMap
 //@ loop 0 entry[op-type-root] len(s0.InsertionPoint) == 0 ==> s.formatter != nil && s.formatter.Formatter.operationType == ctx.Operation.Operation @props C06
 //@ loop 0 entry[op-type-child] len(s0.InsertionPoint) > 0 && old(s.formatter) == nil ==> s.formatter != nil && s.formatter.Formatter.operationType == "query" @props C06
 //@ loop 0 invariant[self] s == s0
+// C06: a step formats its own query with its own formatter; the body never hands a formatter (and with it the
+// operation keyword and name of the root) to another step - children create theirs when they are visited
+//@ stores s.formatter, s.OperationName, s.Then[*], fresh
 //@ end
 
 //@ func (*QueryPlanStep).setVariablesList
